@@ -1,6 +1,7 @@
 import Rpft.Drv.Json
 import Rpft.Cell
-namespace Rpft.Drv
+namespace Rpft.Drv.CellD
+open Rpft.Drv
 open Lean Rpft Rpft.Cell
 
 def elemJ : Elem → Json
@@ -76,4 +77,4 @@ def handleCell (op : String) (j : Json) : Except String Json := do
   | "str.strip" => do let s ← getStr j "s"; pure (strJ (strip pyWs s))
   | _ => throw s!"unknown op {op}"
 
-end Rpft.Drv
+end Rpft.Drv.CellD
